@@ -112,6 +112,6 @@ Definition dispatch (cmd : string) (args : list sexp) : option sexp :=
       | Some x, Some sh => Some (enc_res enc_nt (expand_shared_to x sh)) | _, _ => None end
   | "cat", [l; dim] =>
       match dec_list dec_nt l, dec_nat dim with
-      | Some l, Some dim => Some (enc_res enc_nt (cat_shared l dim)) | _, _ => None end
+      | Some l, Some dim => Some (enc_res enc_nt (cat_nt l dim)) | _, _ => None end
   | _, _ => None
   end.
